@@ -21,6 +21,10 @@ const (
 
 	// ErrUnexpectedType is thrown on failed type assertion.
 	ErrUnexpectedType = SentinelError("unexpected type")
+
+	// ErrBuildAborted is received by callers that were waiting for a cache build that did not return,
+	// e.g. because build function panicked.
+	ErrBuildAborted = SentinelError("cache build aborted")
 )
 
 // Error implements error.
